@@ -231,7 +231,7 @@ def bs_plan(ctx, n):
         k += 1
         nseg = len(conn)
         segs = [straight([s, 0, 0], [s + 1, 1, 0], 4, 3) for s in range(nseg)]
-        cases.append(dict(id=k, world=WORLD_NAMES[k % len(WORLD_NAMES)], segs=segs, comp=None, style="list",
+        cases.append(dict(id=k, world=WORLD_NAMES[k % len(WORLD_NAMES)], segs=segs, comp=None, style="list", script=True,
                           args=dict(conn=dict(has=True, v=conn), labels=dict(has=True, v=lab), legacy=False, ev=False, gv=False, bc=False)))
     while len(cases) < n:
         world = WORLD_NAMES[int(rng.integers(len(WORLD_NAMES)))]
@@ -268,8 +268,86 @@ def bs_plan(ctx, n):
             args["gv"] = False
         k += 1
         cases.append(dict(id=k, world=world, segs=segs, args=args, comp=[None, None, None, "gzip", "lzma"][int(rng.integers(5))],
-                          style=str(rng.choice(["list", "array"]))))
+                          style=str(rng.choice(["list", "array"])), script=bool(k % 2 == 0)))
     return cases
+
+
+def cli_plan(ctx, n):
+    """phonopy --band / BAND = ... runs: band paths, BAND_POINTS, BAND_LABELS, BAND_CONST_INTERVAL, LEGACY_PLOT, options or conf file"""
+    rng = np.random.default_rng(4000 + ctx.seed)
+    cases = []
+    worlds = ["cscl", "tric", "tetab"]
+    grams = {"cscl": GRAMS["cubic"], "tric": GRAMS["triclinic"], "tetab": GRAMS["tetragonal"]}
+    while len(cases) < n:
+        world = worlds[len(cases) % 3]
+        metric = adj3(np.array(grams[world])).tolist()
+        den = int(rng.choice([2, 3, 4, 6]))
+        paths = []
+        for _ in range(int(rng.choice([1, 2, 2, 3]))):
+            m = int(rng.choice([2, 2, 3]))
+            pth = [rand_point(rng, den, lo=0)]
+            while len(pth) < m:
+                p = rand_point(rng, den, lo=0)
+                if p != pth[-1]:
+                    pth.append(p)
+            paths.append(pth)
+        if rng.random() < 0.4 and len(paths) > 1:
+            paths[-1][-1] = list(paths[-2][-1])     # the last two band paths end at the same special point
+            if paths[-1][-1] == paths[-1][-2]:
+                continue
+        npo = [None, 2, 3, 5, 11][int(rng.integers(5))]
+        uselen = bool(rng.random() < 0.5)
+        legacy = bool(rng.random() < 0.25)
+        nseg = sum(len(p) - 1 for p in paths)
+        conn = [i < len(p) - 2 for p in paths for i in range(len(p) - 1)]
+        want = nseg + 1 if legacy else sum(1 if c else 2 for c in conn)
+        r = rng.random()
+        if r < 0.2:
+            labels = None
+        else:
+            cnt = want if r < 0.85 else want + int(rng.choice([-1, 1]))
+            lab_of = {}
+            seq = []
+            flat = [(p[i], p[i + 1]) for p in paths for i in range(len(p) - 1)]
+            for s_, (p0, p1) in enumerate(flat):
+                for pt in (p0, p1):
+                    lab_of.setdefault(tuple(pt), LABELS[len(lab_of) % len(LABELS)])
+                seq.append(lab_of[tuple(p0)])
+                if not (True if legacy else conn[s_]):
+                    seq.append(lab_of[tuple(p1)])
+            if legacy:
+                seq.append(lab_of[tuple(flat[-1][1])])
+            labels = (seq + ["G"] * cnt)[:cnt]
+        cases.append(dict(id=500000 + len(cases) + 1, world=world, via=str(rng.choice(["option", "conf"])),
+                          rq=dict(metric=metric if uselen else [[1, 0, 0], [0, 1, 0], [0, 0, 1]], den=den, np=npo, uselen=uselen, paths=paths),
+                          args=dict(labels=dict(has=labels is not None, v=labels or []), legacy=legacy, ev=bool(rng.random() < 0.2)),
+                          gram=grams[world]))
+    return cases
+
+
+def cli_fold(ctx, cli_events, cli_cases, data, gcases, bcases):
+    """the two events of every command-line run join the band-path and the book-keeping traces"""
+    bycase = {c["id"]: c for c in cli_cases}
+    n = 0
+    for e in cli_events:
+        c = bycase[e["id"]]
+        ctx.count(("cli", c["world"], c["via"], json.dumps(c["rq"], sort_keys=True), json.dumps(c["args"], sort_keys=True)))
+        if "exc" in e:
+            if e.get("phonopy_exc") is False:
+                raise tlcmod.MachineryError("x07 driver (cli): %s" % e["exc"])
+            ctx.violation("cli:exception", "phonopy --band ... failed where the specification expects a band.yaml",
+                          dict(crystal=c["world"], argv=e.get("argv"), conf=e.get("conf"), error=e["exc"]))
+            continue
+        n += 1
+        data["gen"].append(dict(e["gen"], worst=0.0, cli=True))
+        gcases.append(dict(id=c["id"], rq=e["gen"]["rq"], gram=c["gram"], withconn=False, tie=False, cli=dict(argv=e["argv"], conf=e["conf"])))
+        data["bs"].append(dict(e["bs"], world=c["world"], comp=None, margins=dict(inc=0.0, acc=0.0)))
+        bcases.append(dict(id=c["id"], world=c["world"], segs=e["bs"]["cs"]["segs"], args=e["bs"]["cs"]["args"], comp=None, script=True,
+                           cli=dict(argv=e["argv"], conf=e["conf"])))
+        if e["eigvecs_in_file"] != c["args"]["ev"]:
+            ctx.violation("cli:eigenvectors", "band.yaml of phonopy --band carries eigenvectors iff requested", dict(argv=e["argv"], conf=e["conf"]))
+    ctx.extra["cli"] = dict(runs=len(cli_events), with_band_yaml=n, via_conf_file=sum(1 for c in cli_cases if c["via"] == "conf"),
+                            const_interval=sum(1 for c in cli_cases if c["rq"]["uselen"]), labelled=sum(1 for c in cli_cases if c["args"]["labels"]["has"]))
 
 
 # ------------------------------------------------------------------------------------------------ driver
@@ -303,6 +381,12 @@ def trace_run(module, cfg_text, events, constants, workers=4):
     return res
 
 
+def actions_fired(ctx, module, res, actions):
+    """The machines are linear (pc runs npts -> seg* -> done, args -> band -> yaml -> read -> done): TLC printed the final Report of
+    every event, so every action fired for every event (the callers check that the Report set equals the event set)."""
+    ctx.extra.setdefault("actions_fired", {})[module] = dict(actions=actions, evidence="every event reached pc = done (Report printed)")
+
+
 # ------------------------------------------------------------------------------------------------ validation
 def gen_validate(ctx, events, cases):
     bycase = {c["id"]: c for c in cases}
@@ -316,6 +400,7 @@ def gen_validate(ctx, events, cases):
     account(ctx, "MC_BandPathTrace", res, "(generated, %d events)" % len(events))
     if res.violated:
         raise tlcmod.MachineryError("x07: BandPathTrace: unexpected %s" % res.violated)
+    actions_fired(ctx, "BandPathTrace", res, ["StepNpts", "StepSeg", "StepConn"])
     failed = {eid: sorted(names) for _, eid, names in printed(res.stdout, "Q")}
     conf = {eid: bool(ok) for _, eid, ok in printed(res.stdout, "R")}
     ids = set(e["id"] for e in events)
@@ -327,7 +412,8 @@ def gen_validate(ctx, events, cases):
             groups.setdefault("gen:%s" % nme, []).append(eid)
     byid = {e["id"]: e for e in events}
     for key, lst in sorted(groups.items()):
-        wit = [dict(request=bycase[i]["rq"], lattice=bycase[i]["gram"], with_connections=bycase[i]["withconn"], returned=byid[i]["got"]) for i in lst[:3]]
+        wit = [dict(request=bycase[i]["rq"], lattice=bycase[i]["gram"], with_connections=bycase[i]["withconn"], command_line=bycase[i].get("cli"),
+                    returned=byid[i]["got"]) for i in lst[:3]]
         ctx.violation(key, "requirement %s of BandPath.tla fails on what get_band_qpoints returned (%d calls)" % (key.split(":")[1], len(lst)),
                       dict(events=len(lst), witnesses=wit))
     bad = [i for i in conf if not conf[i]]
@@ -336,7 +422,7 @@ def gen_validate(ctx, events, cases):
                       dict(witnesses=[dict(request=bycase[i]["rq"], returned=byid[i]["got"]) for i in bad[:3]]))
     worst = max([e.get("worst", 0.0) or 0.0 for e in events] + [0.0])
     ctx.extra["gen"] = dict(events=len(events), violating=sum(1 for v in failed.values() if v), nonconforming=len(bad),
-                            ties=sum(1 for c in cases if c["tie"]), projection_error_over_tolerance=worst / 1e-9,
+                            ties=sum(1 for c in cases if c["tie"]), from_command_line=sum(1 for c in cases if c.get("cli")), projection_error_over_tolerance=worst / 1e-9,
                             length_mode=sum(1 for c in cases if c["rq"]["uselen"]))
     if worst / 1e-9 > 1e-2 and not groups:
         raise tlcmod.MachineryError("x07: band-path projection margin exhausted: %g" % worst)
@@ -362,26 +448,29 @@ def bs_validate(ctx, events, cases, pinned):
     account(ctx, "MC_BandBookTrace", res, "(generated, %d events)" % len(good))
     if res.violated:
         raise tlcmod.MachineryError("x07: BandBookTrace: unexpected %s" % res.violated)
+    actions_fired(ctx, "BandBookTrace", res, ["StepArgs", "StepBand", "StepYaml", "StepRead"])
     failed = {eid: sorted(names) for _, eid, names in printed(res.stdout, "Q")}
     conf = {}
     for _, eid, var, ok in printed(res.stdout, "R"):
         conf.setdefault(eid, {})[var] = bool(ok)
     ids = set(e["id"] for e in good)
-    if set(failed) != ids or set(conf) != ids or any(len(v) != 2 for v in conf.values()):
+    full = [e for e in good if "only" not in e]
+    if set(failed) != ids or set(conf) != set(e["id"] for e in full) or any(len(v) != 2 for v in conf.values()):
         raise tlcmod.MachineryError("x07: TLC reported on %d/%d of %d band-structure events" % (len(failed), len(conf), len(good)))
     byid = {e["id"]: e for e in good}
     groups = {}
     for eid, names in failed.items():
         for nme in names:
             key = "bs:%s" % nme
-            if nme == "ReaderLabels" and conf[eid]["end"] and not conf[eid]["all"]:
+            if nme == "ReaderLabels" and eid in conf and conf[eid]["end"] and not conf[eid]["all"]:
                 key = DEFECT_KEY
             groups.setdefault(key, []).append(eid)
 
     def witness(i):
         c = bycase[i]
-        return dict(crystal=c["world"], segments=[dict(den=s["den"], q=s["q"]) for s in c["segs"]], arguments=c["args"], compression=c["comp"],
-                    observed={k: v for k, v in byid[i]["ob"].items() if k not in ("inc2", "sgn")}, failed=failed[i])
+        return dict(crystal=c["world"], command_line=c.get("cli"), segments=[dict(den=s["den"], q=s["q"]) for s in c["segs"]], arguments=c["args"],
+                    compression=c["comp"],
+                    observed={k: v for k, v in byid[i]["ob"].items() if k not in ("inc2", "sgn")}, script_plots=c.get("script"), failed=failed[i])
     for key, lst in sorted(groups.items()):
         what = ("requirement %s of BandBook.tla fails on what BandStructure / band.yaml / the bandplot reader reported (%d runs)"
                 % (key.split(":")[1], len(lst)))
@@ -395,8 +484,12 @@ def bs_validate(ctx, events, cases, pinned):
                            events_distinguishing_reader_variants=len(distinguished),
                            worst_increment_projection=max([e["margins"]["inc"] for e in good] + [0.0]),
                            worst_accumulation=max([e["margins"]["acc"] for e in good] + [0.0]),
-                           labelled=sum(1 for e in good if e["ob"]["labels"]["has"]), legacy=sum(1 for e in good if e["cs"]["args"]["legacy"]),
-                           ragged=sum(1 for e in good if len(set(len(s["q"]) for s in e["cs"]["segs"])) > 1))
+                           labelled=sum(1 for e in full if e["ob"]["labels"]["has"]), legacy=sum(1 for e in good if e["cs"]["args"]["legacy"]),
+                           ragged=sum(1 for e in good if len(set(len(s["q"]) for s in e["cs"]["segs"])) > 1),
+                           bandplot_runs_new_style=sum(1 for e in good if e["ob"]["sp"]["has"]),
+                           bandplot_runs_legacy=sum(1 for e in good if e["ob"]["so"]["has"]))
+    if ctx.extra["bs"]["bandplot_runs_new_style"] < len(good) // 5 and not ctx.violations:
+        raise tlcmod.MachineryError("x07: only %d phonopy-bandplot runs" % ctx.extra["bs"]["bandplot_runs_new_style"])
     if not distinguished and not ctx.violations:
         raise tlcmod.MachineryError("x07: no band-structure event distinguishes the two reader variants")
     if okv == ["end"]:
@@ -411,7 +504,7 @@ def bs_validate(ctx, events, cases, pinned):
                       dict(witnesses=[witness(i) for i in nonconf[:3]]))
     if ctx.extra["bs"]["worst_increment_projection"] > 1e-9 and not groups:
         raise tlcmod.MachineryError("x07: distance projection margin exhausted: %g" % ctx.extra["bs"]["worst_increment_projection"])
-    e = good[len(good) // 3]
+    e = full[len(full) // 3]
     ctx.sample(dict(band_structure_event=dict(crystal=e["world"], args=e["cs"]["args"], seglens=[len(s["q"]) for s in e["cs"]["segs"]],
                                               yaml={k: e["ob"]["y"][k] for k in ("nqpoint", "npath", "segn", "labels")}, reader=e["ob"]["rd"])))
 
@@ -430,27 +523,41 @@ def run(ctx):
         "labels are plain strings without quotes (band.yaml writes them between single quotes)",
     ]
     from harness import x07_apiplan
-    bandpath_model(ctx)
-    pinned = bandbook_model(ctx)
     api_cases, h5_cases = x07_apiplan.plan(ctx)
     gcases = gen_plan(ctx, 260 if ctx.quick else 2500)
     bcases = bs_plan(ctx, 160 if ctx.quick else 1500)
     rundir = tlcmod.new_rundir("x07drv")
+    nproc = 3
+    ccases = cli_plan(ctx, 36 if ctx.quick else 300)
+    plans = [dict(seed=ctx.seed, gen=gcases, bs=bcases, api=[], h5=h5_cases, cli=ccases)]
+    plans += [dict(seed=ctx.seed, gen=[], bs=[], api=api_cases[k::nproc - 1], h5=[]) for k in range(nproc - 1)]
+    procs = []
+    data = dict(gen=[], bs=[], api=[], h5=[], cli=[], wall=0.0)
     try:
-        proc, out = run_driver(ctx, dict(seed=ctx.seed, gen=gcases, bs=bcases, api=api_cases, h5=h5_cases), rundir)
-        try:
-            data = collect(proc, out)
-        finally:
+        for k, pl in enumerate(plans):
+            sub = os.path.join(rundir, "p%d" % k)
+            os.makedirs(sub)
+            procs.append(run_driver(ctx, pl, sub))
+        # the models are checked while the real code runs
+        bandpath_model(ctx)
+        pinned = bandbook_model(ctx)
+        for proc, out in procs:
+            d = collect(proc, out)
+            for key in ("gen", "bs", "api", "h5", "cli"):
+                data[key] += d.get(key, [])
+            data["wall"] = max(data["wall"], d["wall"])
+    finally:
+        for proc, _ in procs:
             if proc.poll() is None:
                 proc.kill()
-    finally:
         shutil.rmtree(rundir, ignore_errors=True)
     ctx.extra["driver_wall_s"] = round(data["wall"], 1)
-    ctx.traces += len(data["gen"]) + len(data["bs"]) + len(data["api"]) + len(data["h5"])
+    ctx.traces += len(data["gen"]) + len(data["bs"]) + len(data["api"]) + len(data["h5"]) + len(data["cli"])
     for c in gcases:
         ctx.count(("gen", json.dumps(c["rq"], sort_keys=True), c["withconn"]))
     for c in bcases:
         ctx.count(("bs", c["world"], json.dumps(c["segs"]), json.dumps(c["args"], sort_keys=True)))
+    cli_fold(ctx, data["cli"], ccases, data, gcases, bcases)
     gen_validate(ctx, data["gen"], gcases)
     bs_validate(ctx, data["bs"], bcases, pinned)
     x07_apiplan.validate(ctx, data["api"], data["h5"], api_cases, h5_cases)
